@@ -7,6 +7,10 @@ V = os.path.dirname(os.path.dirname(os.path.abspath(__file__)))
 TRUST = "Trusted: TLC/SANY and the CommunityModules Json reader; the Go projection functions of the harness; "
 
 CLAIMED = {
+ "C10": dict(
+   tech="TLA+ decision table and pipeline model Access.tla checked exhaustively by TLC (+4 defect-variant sanity configs); per-line trace validation (TraceAccess.tla) of the real access.Global / access.DefaultProfile and of requests through real dnssvc.NewHandlers handlers with recording fakes",
+   text="TLC enumerates all 576 abstract access vectors x pipeline stages and checks blocked <=> contract, blocked leaves no trace, allow overrides block, exceptions unblock, unblocked is processed; every realisable vector (294) is concretised (overlapping prefixes incl. /0, /31, /32, IPv6, v4-mapped and zoned clients, ASNs, rule variants, mixed case) and validated against the real code both at unit level and through the full handler stack, where the effect set (written, resolved, filtered, cached, logged, billed, rulestat, dnsdb) is observed with recording fakes.",
+   note=TRUST + "contract written from the property text and docs; the Go abstraction function (bitwise subnet membership, ASN equality, small rule matcher) and recording fakes; cache effect read from the cache's Prometheus metrics; EDNS options, root name, CHAOS class and special domains excluded.", ref="6 C10"),
  "C14": dict(
    tech="TLA+ spec ProfileDB.tla (ghost backend + the six index maps + explicitly scheduled clean-up steps + cache file/restart) model-checked by TLC; TLC-generated and seeded histories replayed on the real profiledb.Default with intercepted clean-up goroutines and a virtual clock; all look-ups probed after every step and validated by TLC (TraceProfileDB.tla); cache-file replacement validated against AtomicFile.tla from strace logs with a SIGKILL injected at every system call",
    text="TLC explores every interleaving of backend mutations (attach/detach/move, linked/dedicated IP and human-id changes and swaps, profile deletion), full and partial syncs, restarts from the cache file, look-ups and the background clean-ups they spawn (each an independently scheduled step) and checks in every state that all four look-ups answer with the owner in the last synchronised data; two sanity configs show the pinned tree's defects are expressible. The same histories are forced on the real database (clean-ups queued by an overlay rewrite and run when the schedule says), every probe of every key after every step is checked by TLC against the oracle, a restart must restore every profile/device field (structural deep comparison over randomised settings), and every system call of the cache-file replacement is a kill point after which the file must load as a complete version.",
